@@ -116,8 +116,16 @@ Definition next_is (k : kind) (ts : list token) : option (token * list token) :=
   | [] => None
   end.
 
-(* QueryHandler._handle_grouping_op; [rec] = self._handle_or_op *)
-Definition p_grouping (rec : parser) (ts : list token) : res (expr * list token) :=
+(* a token that may stand where a search term is expected (repaired code):
+   a Tag token other than the legacy double brackets *)
+Definition is_operand (t : token) : bool :=
+  kind_eqb (tk_kind t) KTag
+  && negb (str_eqb (tk_text t) [ch_lbrack; ch_lbrack]) && negb (str_eqb (tk_text t) [ch_rbrack; ch_rbrack]).
+
+(* QueryHandler._handle_grouping_op; [rec] = self._handle_or_op.
+   [fx = false]: before the fix: commit any other token became a search term;
+   [fx = true]: a token that is not an operand raises ValueError. *)
+Definition p_grouping (fx : bool) (rec : parser) (ts : list token) : res (expr * list token) :=
   match ts with
   | [] => Exn ValueError                                  (* _get_next_token: Parse error *)
   | t :: r =>
@@ -159,18 +167,19 @@ Definition p_grouping (rec : parser) (ts : list token) : res (expr * list token)
               end
           end
       | KWild => Ok (EWild (tk_text t), r)
-      | _ => Ok (ETerm (tk_text t), r)                    (* any other token becomes a search term *)
+      | _ => if fx && negb (is_operand t) then Exn ValueError   (* ... found where a search term is expected *)
+             else Ok (ETerm (tk_text t), r)
       end
   end.
 
 (* QueryHandler._handle_negation *)
-Definition p_neg (rec : parser) (ts : list token) : res (expr * list token) :=
+Definition p_neg (fx : bool) (rec : parser) (ts : list token) : res (expr * list token) :=
   match next_is KNeg ts with
   | Some (t, r) =>
-      let* (e, r1) := p_grouping rec r in
+      let* (e, r1) := p_grouping fx rec r in
       if expr_has_ch ch_qmark e then Exn ValueError       (* Cannot negate wildcards *)
       else Ok (ENeg (tk_text t) e, r1)
-  | None => p_grouping rec ts
+  | None => p_grouping fx rec ts
   end.
 
 (* the while loops of _handle_and_op / _handle_or_op; [n] bounds the number of
@@ -189,35 +198,41 @@ Fixpoint p_loop (p : parser) (k : kind) (mk : str -> expr -> expr -> expr)
   end.
 
 (* QueryHandler._handle_and_op *)
-Definition p_and (rec : parser) (ts : list token) : res (expr * list token) :=
-  let* (e, r) := p_neg rec ts in
-  p_loop (p_neg rec) KAnd EAnd (length r) e r.
+Definition p_and (fx : bool) (rec : parser) (ts : list token) : res (expr * list token) :=
+  let* (e, r) := p_neg fx rec ts in
+  p_loop (p_neg fx rec) KAnd EAnd (length r) e r.
 
 (* QueryHandler._handle_or_op *)
-Definition p_or_body (rec : parser) (ts : list token) : res (expr * list token) :=
-  let* (e, r) := p_and rec ts in
-  p_loop (p_and rec) KOr EOr (length r) e r.
+Definition p_or_body (fx : bool) (rec : parser) (ts : list token) : res (expr * list token) :=
+  let* (e, r) := p_and fx rec ts in
+  p_loop (p_and fx rec) KOr EOr (length r) e r.
 
-Fixpoint p_or (fuel : nat) (ts : list token) : res (expr * list token) :=
+(* [fuel] = nesting levels still available.  [fx = false]: the fuel is the token
+   count + 1 and never runs out (Python's own recursion limit is not modelled);
+   [fx = true]: the repaired code turns RecursionError into ValueError, modelled
+   as ValueError when the available depth [limit] is exceeded. *)
+Fixpoint p_or (fx : bool) (fuel : nat) (ts : list token) : res (expr * list token) :=
   match fuel with
-  | O => Exn Unmodelled
-  | S f => p_or_body (p_or f) ts
+  | O => if fx then Exn ValueError else Exn Unmodelled
+  | S f => p_or_body fx (p_or fx f) ts
   end.
 
 (* QueryHandler._parse on the token list *)
-Definition parse_tokens (ts : list token) : res expr :=
-  let* (e, r) := p_or (S (length ts)) ts in
+Definition parse_tokens (fx : bool) (limit : nat) (ts : list token) : res expr :=
+  let fuel := if fx then Nat.min (S (length ts)) limit else S (length ts) in
+  let* (e, r) := p_or fx fuel ts in
   match r with
   | [] => Ok e
   | _ :: _ => Exn ValueError                              (* Parse error in search string *)
   end.
 
 (* QueryHandler.__init__: _parse(expression_string.casefold()) *)
-Definition compile (q : str) : res expr := parse_tokens (tokenize (fold q)).
+Definition compile (fx : bool) (limit : nat) (q : str) : res expr :=
+  parse_tokens fx limit (tokenize (fold q)).
 
 (* bool(QueryHandler(q).search(hed_string)) *)
-Definition search (q : str) (root : node) : res bool :=
-  let* e := compile q in Ok (matches e root).
+Definition search (fx : bool) (limit : nat) (q : str) (root : node) : res bool :=
+  let* e := compile fx limit q in Ok (matches fx e root).
 
 (* ---------------------------------------------------------------- grouping balance *)
 
